@@ -333,6 +333,9 @@ func (c *FnCtx) enterLoop(bc *blockCtx, li *loopInfo, rr *regionRun) {
 		}
 	}
 	// 5. assume invariants
+	if c.dry == 0 {
+		c.runGhostAtState(bc.fr, bc.st, Anchor{Kind: "head", Loop: li.ord})
+	}
 	rr.hdrState[li] = bc.st.clone()
 	if hasInv {
 		for _, inv := range li.spec.Invs {
